@@ -1,6 +1,7 @@
 import TypifyModel.Proofs.C10
 import TypifyModel.Proofs.C10Strings
 import TypifyModel.Proofs.C05Convert
+import TypifyModel.Proofs.C05ConvertArray
 open TypifyModel.C10
 #print axioms table_ok
 #print axioms int_fits_tbl
@@ -19,3 +20,6 @@ open TypifyModel.C10S
 #print axioms TypifyModel.C05C.convert_string_uses_regress
 #print axioms TypifyModel.C05C.convert_string_format_ignores_validation
 #print axioms TypifyModel.C05C.convert_string_format_drops
+#print axioms TypifyModel.C05A.tuple_arity
+#print axioms TypifyModel.C05A.array_len
+#print axioms TypifyModel.C05A.positional_items_need_fixed_length
